@@ -10,6 +10,10 @@
 //!   (c16-literals "s"...)                 every emitted spelling of the source strings is compiled AND RUN: the UTF-16
 //!                                         units of QStringLiteral(...) / the bytes of narrow literals = the source  [oracle]
 //!   (c16-lit "s")                         spelling of the source string in the real header vs Model.formatStringLiteral [model]
+//!   (c16-lit sig "qml" "Name" (sigs …))   the QOverload<…>::of(&Class::signal) spellings of the real header vs the model   [model]
+//!   (c16-lit num "qml" pinf|ninf|nan)     spelling of a non-finite double constant vs the model                         [model]
+//!   (c16-doubles (d "expr" pos "bits")…)  the double constant spelled in the real header, compiled and RUN, has the bit
+//!                                         pattern of the source constant expression (±inf, NaN, -0.0, denormals, max …)  [oracle]
 //!   (c16-rejects "qml" "needle")          the document is refused with an error diagnostic containing the needle        [oracle]
 //!   (c16-metatypes "path")                helper: dumps the tweaked metatypes used by this stream (for tools/)
 use crate::docgen::Obj;
@@ -55,6 +59,40 @@ fn prop(name: &str, ty: &str, notify: bool) -> metatype::Property {
     }
 }
 
+/// properties whose NOTIFY signal carries the new value: (name, type, kind of the type for `is_const_ref_preferred`)
+const SIG_PROPS: &[(&str, &str)] = &[
+    ("names", "QStringList"), ("nums", "QList<int>"), ("caption", "QString"), ("count2", "int"), ("face", "QFont"), ("modeN", "WBase::Mode"),
+    ("peerN", "WBase*"), ("varN", "QVariant"), ("ratioN", "double"), ("flagsN", "WBase::Flags"), ("onN", "bool"), ("scopedN", "WBase::Scoped"),
+];
+fn kind_of_type(t: &str) -> &'static str {
+    match t {
+        "int" | "uint" | "bool" | "double" => "prim",
+        "QString" => "qstring",
+        "QVariant" => "qvariant",
+        t if t.ends_with('*') => "pointer",
+        t if t == "QStringList" || t.starts_with("QList<") => "list",
+        "WBase::Mode" | "WBase::Flags" | "WBase::Scoped" | "WBase::Level" => "enum",
+        _ => "cls",
+    }
+}
+/// plain signals: (name, [(C++ type, QML type annotation if it can be written)])
+#[allow(clippy::type_complexity)]
+const SIG_PLAIN: &[(&str, &[(&str, Option<&str>)])] = &[
+    ("sigList", &[("QStringList", None)]),
+    ("sigInts", &[("QList<int>", None)]),
+    ("sigFont", &[("QFont", Some("QFont"))]),
+    ("sigSize", &[("QSize", Some("QSize"))]),
+    ("sigColor", &[("QColor", Some("QColor"))]),
+    ("sigGadget", &[("WGadget", Some("WGadget"))]),
+    ("sigMix1", &[("int", Some("int")), ("QString", Some("QString"))]),
+    ("sigMix2", &[("QStringList", None), ("int", Some("int")), ("WBase*", Some("WBase"))]),
+    ("sigMix3", &[("QFont", Some("QFont")), ("bool", Some("bool")), ("QList<int>", None), ("WBase::Mode", Some("WBase.Mode"))]),
+    ("sigMix4", &[("QString", Some("QString")), ("QVariant", Some("QVariant")), ("double", Some("double")), ("WBase::Flags", Some("WBase.Flags"))]),
+    ("sigMix5", &[("WBase::Scoped", Some("WBase.Scoped")), ("QStringList", None)]),
+    ("sigMix6", &[("uint", Some("uint")), ("QColor", Some("QColor")), ("QString", Some("QString")), ("WBase*", Some("WBase")), ("QStringList", None)]),
+    ("sigNone", &[]),
+];
+
 /// Verification classes of this stream (self-contained: nothing else depends on them).
 ///   WBase : QWidget — a notifying read/write property of every kind, property names that end in digits or look like
 ///   `object + property` concatenations, 50 int properties q0..q49, signals with 0–2 arguments, a default-argument
@@ -88,6 +126,14 @@ pub fn c16_classes() -> Vec<metatype::Class> {
     for (n, t) in &typed {
         base.properties.push(prop(n, t, true));
         base.signals.push(Method::nullary(format!("{n}Changed"), "void"));
+    }
+    // signal family: notify signals and plain signals whose parameters cover every passing convention
+    for (n, t) in SIG_PROPS {
+        base.properties.push(prop(n, t, true));
+        base.signals.push(Method::with_argument_types(format!("{n}Changed"), "void", [*t]));
+    }
+    for (n, args) in SIG_PLAIN {
+        base.signals.push(Method::with_argument_types(*n, "void", args.iter().map(|(t, _)| *t)));
     }
     for k in 0..50 {
         base.properties.push(prop(&format!("q{k}"), "int", true));
@@ -1761,6 +1807,235 @@ fn enum_probes() -> Vec<(String, String)> {
     v
 }
 
+// ---- signal pointers: every parameter passing convention, in handlers and in notify connections
+
+fn sig_sexp(cls: &str, name: &str, args: &[&str]) -> Sexp {
+    let mut v = vec![st(cls), st(name)];
+    v.extend(args.iter().map(|t| node("arg", vec![st(*t), atom(kind_of_type(t))])));
+    node("sig", v)
+}
+
+/// One object with 2–7 connections: handlers on the plain signals (no parameters, a prefix of the parameters, or all
+/// that can be annotated) and bindings reading properties whose notify signal carries the value.  Returns the document
+/// and the signal pointers in header order (bindings sorted by property, then callbacks sorted by signal).
+fn signal_family_doc(rng: &mut Rng) -> (String, Sexp) {
+    let mut t = Obj::new("WBase").with_id("t");
+    let mut bind: Vec<(String, Vec<Sexp>)> = vec![];
+    let mut cbs: Vec<(String, Sexp)> = vec![];
+    let n = 2 + rng.below(6);
+    for _ in 0..n {
+        if rng.chance(1, 2) {
+            let (p, ty) = *rng.pick(SIG_PROPS);
+            if bind.iter().any(|(q, _)| q == p) {
+                continue;
+            }
+            let own = sig_sexp("WBase", &format!("{p}Changed"), &[ty]);
+            let (rhs, sigs) = match (ty, rng.below(2)) {
+                ("QString", 1) => (format!("v.{p} + le.text"), vec![own, sig_sexp("QLineEdit", "textChanged", &["QString"])]),
+                ("int", 1) => (format!("sb.value + v.{p}"), vec![sig_sexp("QSpinBox", "valueChanged", &["int"]), own]),
+                ("bool", 1) => (format!("v.{p} || cb.checked"), vec![own, sig_sexp("QAbstractButton", "toggled", &["bool"])]),
+                ("double", 1) => (format!("v.{p} + ds.value"), vec![own, sig_sexp("QDoubleSpinBox", "valueChanged", &["double"])]),
+                _ => (format!("v.{p}"), vec![own]),
+            };
+            t = t.bind(p, &rhs);
+            bind.push((p.to_owned(), sigs));
+        } else {
+            let (name, args) = *rng.pick(SIG_PLAIN);
+            if cbs.iter().any(|(q, _)| q == name) {
+                continue;
+            }
+            // parameters: the longest annotatable prefix, cut at a random length
+            let annot: Vec<&str> = args.iter().map_while(|(_, a)| *a).collect();
+            let take = if annot.is_empty() { 0 } else { rng.below(annot.len() + 1) };
+            let rhs = if take == 0 && rng.chance(1, 2) {
+                "v.reset()".to_owned()
+            } else {
+                let ps: Vec<String> = annot.iter().take(take).enumerate().map(|(k, a)| format!("p{k}: {a}")).collect();
+                format!("function({}) {{ v.reset() }}", ps.join(", "))
+            };
+            t = t.bind(&format!("on{}", qmluic::qtname::to_ascii_capitalized(name)), &rhs);
+            let tys: Vec<&str> = args.iter().map(|(t, _)| *t).collect();
+            cbs.push((name.to_owned(), sig_sexp("WBase", name, &tys)));
+        }
+    }
+    bind.sort_by(|a, b| a.0.cmp(&b.0));
+    cbs.sort_by(|a, b| a.0.cmp(&b.0));
+    let mut sigs = vec![];
+    for (_, ss) in bind {
+        sigs.extend(ss);
+    }
+    for (_, s) in cbs {
+        sigs.push(s);
+    }
+    rng.shuffle(&mut t.bindings);
+    (with_fixture(Obj::new("QWidget").with_id("root")).child(t).to_qml(), node("sigs", sigs))
+}
+
+/// the `QOverload<…>::of(&Class::signal)` spellings of a header, in order
+fn overload_spellings(header: &str) -> Vec<String> {
+    let mut out = vec![];
+    let mut rest = header;
+    while let Some(p) = rest.find("QOverload<") {
+        let tail = &rest[p..];
+        match tail.find(">::of(&").and_then(|q| tail[q..].find(')').map(|r| q + r)) {
+            Some(end) => {
+                out.push(tail[..=end].to_owned());
+                rest = &tail[end + 1..];
+            }
+            None => break,
+        }
+    }
+    out
+}
+
+// ---- double constants: boundary and non-finite values, as literals and as folded sub-expressions
+
+/// (QML expression of type double made of constants only, its value) — the value is computed here with Rust's f64
+/// arithmetic, the same IEEE operations the constant folder performs
+fn double_constants() -> Vec<(&'static str, f64)> {
+    vec![
+        ("1e999", f64::INFINITY), ("-1e999", f64::NEG_INFINITY), ("-(1e999)", f64::NEG_INFINITY), ("1e308 * 10.0", f64::INFINITY),
+        ("-1e308 * 10.0", f64::NEG_INFINITY), ("1e999 - 1e999", f64::NAN), ("1e999 * 0.0", f64::NAN), ("-(1e999 - 1e999)", f64::NAN),
+        ("1e999 * -1.0", f64::NEG_INFINITY), ("-1e999 + 1e308", f64::NEG_INFINITY), ("0.0", 0.0), ("-0.0", -0.0), ("0.0 * -1.0", -0.0),
+        ("5e-324", 5e-324), ("-5e-324", -5e-324), ("2.2250738585072014e-308", 2.2250738585072014e-308), ("2.225073858507201e-308", 2.225073858507201e-308),
+        ("1.7976931348623157e308", f64::MAX), ("-1.7976931348623157e308", f64::MIN), ("1.7976931348623157e308 + 1e292", f64::INFINITY),
+        ("0.1 + 0.2", 0.1 + 0.2), ("1.0 / 3.0", 1.0 / 3.0), ("-1.0 / 3.0", -1.0 / 3.0), ("1e21", 1e21), ("1e-7", 1e-7), ("123456789.125", 123456789.125),
+        ("9007199254740993.0", 9007199254740992.0), ("4.9e-324 / 2.0", 0.0), ("-4.9e-324 / 2.0", -0.0), ("1e-320", 1e-320), ("3.0 % 2.0", 1.0),
+        ("-3.5 % 2.0", -1.5), ("1.0", 1.0), ("-1.0", -1.0), ("1e300 * 1e300 * 0.0", f64::NAN),
+    ]
+}
+
+/// positions of a constant inside a dynamic expression of type double: (template with `{}`, label)
+const DOUBLE_POSITIONS: &[(&str, &str)] = &[
+    ("ds.value + ({})", "operand"),
+    ("cb.checked ? ({}) : ds.value", "ternary-branch"),
+    ("Math.max(ds.value, {})", "max-argument"),
+    ("{{ let k = {}; return ds.value * k }}", "let-initialiser"),
+];
+
+fn double_doc(expr: &str, pos: usize) -> String {
+    let rhs = DOUBLE_POSITIONS[pos].0.replace("{}", expr).replace("{{", "{").replace("}}", "}");
+    stmt_doc("d", &rhs)
+}
+
+/// the spelled constant of the eval function: the only token run of the body that is a floating literal, `qInf()`,
+/// `-qInf()` or `qQNaN()`
+fn spelled_double(header: &str) -> Option<String> {
+    let toks = tokenize(header).ok()?;
+    let start = (0..toks.len()).find(|&i| matches!(&toks[i], Tok::Id(s) if s == "evalTD") && toks.get(i + 3).map(|t| is_p(t, "{")).unwrap_or(false))?;
+    let body = &toks[start..];
+    let end = body.iter().position(|t| is_p(t, "}")).unwrap_or(body.len());
+    let body = &body[..end];
+    for (i, t) in body.iter().enumerate() {
+        let neg = i > 0 && is_p(&body[i - 1], "-") && i > 1 && (is_p(&body[i - 2], "=") || is_p(&body[i - 2], "(") || is_p(&body[i - 2], ",") || is_p(&body[i - 2], "+") || is_p(&body[i - 2], "*") || matches!(&body[i - 2], Tok::Id(s) if s == "return"));
+        let sign = if neg { "-" } else { "" };
+        match t {
+            Tok::Num(n) if n.contains('e') || n.contains('.') => return Some(format!("{sign}{n}")),
+            Tok::Id(s) if (s == "qInf" || s == "qQNaN") && body.get(i + 1).map(|t| is_p(t, "(")).unwrap_or(false) => return Some(format!("{sign}{s}()")),
+            Tok::Id(s) if s == "inf" || s == "NaN" || s == "nan" => return Some(format!("{sign}{s}")),
+            _ => {}
+        }
+    }
+    None
+}
+
+/// compiles and runs a program that prints the bit pattern of every spelling
+fn gxx_double_bits(dir: &Path, spellings: &[String]) -> Result<Vec<Result<u64, String>>, String> {
+    const PRE: &str = "#include <cstdio>\n#include <cstring>\n#include <cmath>\n#include <limits>\nstatic double qInf() { return std::numeric_limits<double>::infinity(); }\nstatic double qQNaN() { return std::numeric_limits<double>::quiet_NaN(); }\nstatic void p(int k, double v) { unsigned long long b; std::memcpy(&b, &v, 8); std::printf(\"%d %llx\\n\", k, b); }\nint main() {\n";
+    let pre_lines = PRE.matches('\n').count();
+    let mut bad: BTreeMap<usize, String> = BTreeMap::new();
+    let src = dir.join("dbl.cpp");
+    let exe = dir.join("dbl.out");
+    for _round in 0..3 {
+        let mut text = String::from(PRE);
+        for (k, sp) in spellings.iter().enumerate() {
+            if bad.contains_key(&k) {
+                text.push('\n');
+            } else {
+                text.push_str(&format!("p({k}, {sp});\n"));
+            }
+        }
+        text.push_str("return 0; }\n");
+        std::fs::write(&src, &text).map_err(|e| e.to_string())?;
+        let out = Command::new("g++").env("LC_ALL", "C").args(["-std=c++17", "-w", "-O0", "-fno-diagnostics-show-caret", "-fdiagnostics-color=never", "-fmax-errors=0", "-o"]).arg(&exe).arg(&src).output().map_err(|e| format!("cannot run g++: {e}"))?;
+        if out.status.success() {
+            let run = Command::new(&exe).output().map_err(|e| format!("cannot run program: {e}"))?;
+            let mut res: Vec<Result<u64, String>> = (0..spellings.len()).map(|k| Err(bad.get(&k).cloned().unwrap_or_else(|| "no output".into()))).collect();
+            for line in String::from_utf8_lossy(&run.stdout).lines() {
+                let mut it = line.split(' ');
+                let k: usize = it.next().unwrap().parse().map_err(|_| "bad output")?;
+                res[k] = Ok(u64::from_str_radix(it.next().unwrap(), 16).map_err(|_| "bad output")?);
+            }
+            return Ok(res);
+        }
+        let err = String::from_utf8_lossy(&out.stderr).into_owned();
+        let mut found = false;
+        for line in err.lines() {
+            if let Some(pp) = line.find(": error: ") {
+                if let Some(Ok(ln)) = line[..pp].split(':').nth(1).map(|x| x.parse::<usize>()) {
+                    if ln > pre_lines && ln - pre_lines - 1 < spellings.len() {
+                        bad.entry(ln - pre_lines - 1).or_insert_with(|| line[pp + 9..].to_owned());
+                        found = true;
+                    }
+                }
+            }
+        }
+        if !found {
+            return Err(format!("program does not compile: {}", err.lines().next().unwrap_or("")));
+        }
+    }
+    Err("program still does not compile".into())
+}
+
+impl C16 {
+    /// (c16-doubles (d "expr" pos "bits")…): the constant the header spells has the value of the source expression
+    fn doubles(&self, items: &[(String, usize, u64)]) -> Sexp {
+        let mut spell: Vec<String> = vec![];
+        let mut owner = vec![];
+        let mut rejected = 0;
+        let mut fails = vec![];
+        for (k, (expr, pos, _)) in items.iter().enumerate() {
+            let Some(b) = self.translate("D", &double_doc(expr, *pos)) else {
+                rejected += 1;
+                continue;
+            };
+            match spelled_double(&b.header) {
+                Some(sp) => {
+                    spell.push(sp);
+                    owner.push(k);
+                }
+                None => fails.push(node("dbl", vec![st(expr.clone()), atom(DOUBLE_POSITIONS[*pos].1), st("no double constant found in the eval function")])),
+            }
+        }
+        let dir = match self.batch_dir() {
+            Ok(d) => d,
+            Err(e) => return node("fail", vec![st(format!("setup: {e}"))]),
+        };
+        let bits = gxx_double_bits(&dir, &spell);
+        let _ = std::fs::remove_dir_all(&dir);
+        let bits = match bits {
+            Ok(b) => b,
+            Err(e) => return node("fail", vec![st(e)]),
+        };
+        for ((sp, r), k) in spell.iter().zip(&bits).zip(&owner) {
+            let (expr, pos, want) = &items[*k];
+            let wantf = f64::from_bits(*want);
+            let why = match r {
+                Ok(got) if got == want || (wantf.is_nan() && f64::from_bits(*got).is_nan()) => continue,
+                Ok(got) => format!("spelled {sp} = {:e} (bits {got:x}), the source constant is {:e} (bits {want:x})", f64::from_bits(*got), wantf),
+                Err(e) => format!("spelled {sp}: does not compile: {e}"),
+            };
+            fails.push(node("dbl", vec![st(expr.clone()), atom(DOUBLE_POSITIONS[*pos].1), st(why)]));
+        }
+        if fails.is_empty() {
+            node("ok", vec![atom("constants"), num(items.len()), atom("rejected"), num(rejected)])
+        } else {
+            fails.truncate(12);
+            node("fail", fails)
+        }
+    }
+}
+
 /// bodies whose return type cannot be verified must be REJECTED — in a gadget sub-binding exactly as in a plain one
 fn must_reject_docs() -> Vec<(String, &'static str)> {
     let mut v = vec![];
@@ -2005,6 +2280,37 @@ impl Stream for C16 {
             }
             inv_docs.push((format!("E{made}"), src));
         }
+        // signal pointers: model (spelling) + scan + compiler
+        let nsig = if thorough { 1200 } else { 120 };
+        for k in 0..nsig {
+            let mut rng = Rng::fork(seed, "c16-sig", k as u64);
+            let (src, sigs) = signal_family_doc(&mut rng);
+            if self.translate("Sig", &src).is_none() {
+                continue;
+            }
+            cases.push(Case { kind: "model", labels: vec!["signal-pointer".into()], request: node("c16-lit", vec![atom("sig"), st(src.clone()), st("Sig"), sigs]) });
+            if k % 3 == 0 {
+                cases.push(Case { kind: "oracle", labels: vec!["scan".into(), "signal-pointer".into()], request: node("c16-scan", vec![st("Sig"), st(src.clone())]) });
+            }
+            inv_docs.push((format!("G{k}"), src));
+        }
+        // double constants: value of the spelled constant (compiled and run) and spelling of the non-finite ones
+        let dc = double_constants();
+        let mut items = vec![];
+        for (k, (expr, v)) in dc.iter().enumerate() {
+            for pos in 0..DOUBLE_POSITIONS.len() {
+                if thorough || (k + pos) % 2 == 0 || !v.is_finite() {
+                    items.push(node("d", vec![st(*expr), num(pos), st(format!("{:x}", v.to_bits()))]));
+                }
+                if !v.is_finite() {
+                    let class = if v.is_nan() { "nan" } else if *v > 0.0 { "pinf" } else { "ninf" };
+                    cases.push(Case { kind: "model", labels: vec!["double-constant".into(), class.into()], request: node("c16-lit", vec![atom("num"), st(double_doc(expr, pos)), atom(class)]) });
+                }
+            }
+        }
+        for chunk in items.chunks(48) {
+            cases.push(Case { kind: "oracle", labels: vec!["double-constant".into()], request: node("c16-doubles", chunk.to_vec()) });
+        }
         for (doc, needle) in must_reject_docs() {
             cases.push(Case { kind: "oracle", labels: vec!["must-reject".into()], request: node("c16-rejects", vec![st(doc), st(needle)]) });
         }
@@ -2089,6 +2395,31 @@ impl Stream for C16 {
                     })
                     .collect();
                 self.literals(&strings)
+            }
+            "c16-lit" if args[0].as_atom() == Some("sig") => {
+                let Some(b) = self.translate(args[2].as_str().unwrap(), args[1].as_str().unwrap()) else {
+                    return node("rejected", vec![]);
+                };
+                node("overloads", overload_spellings(&b.header).into_iter().map(st).collect())
+            }
+            "c16-lit" if args[0].as_atom() == Some("num") => {
+                let Some(b) = self.translate("D", args[1].as_str().unwrap()) else {
+                    return node("rejected", vec![]);
+                };
+                match spelled_double(&b.header) {
+                    Some(sp) => node("num", vec![st(sp)]),
+                    None => node("num", vec![]),
+                }
+            }
+            "c16-doubles" => {
+                let items: Vec<(String, usize, u64)> = args
+                    .iter()
+                    .map(|d| {
+                        let (_, a) = d.as_node().unwrap();
+                        (a[0].as_str().unwrap().to_owned(), a[1].as_usize().unwrap(), u64::from_str_radix(a[2].as_str().unwrap(), 16).unwrap())
+                    })
+                    .collect();
+                self.doubles(&items)
             }
             "c16-lit" => {
                 let s = args[0].as_str().unwrap();
